@@ -52,6 +52,37 @@ def complete(prog, rng, dense):
     return fixed
 
 
+def cond_program(rng, n, depth):
+    """seeded well-nested program of about n items over names A B C __LINE__ __FILE__"""
+    out = []
+    names = ["A", "B", "A", "B", "C", "__LINE__", "__FILE__"]
+    while len(out) < n:
+        r = rng.random()
+        if r < 0.30 and depth < 5:
+            out.append(["ifdef" if rng.random() < 0.55 else "ifndef", rng.choice(names)])
+            out += cond_program(rng, rng.choice([0, 0, 1, 2, 3, 6]), depth + 1)
+            for _ in range(rng.choice([0, 0, 1, 2])):
+                out.append(["elsif", rng.choice(names)])
+                out += cond_program(rng, rng.choice([0, 0, 1, 2, 4]), depth + 1)
+            if rng.random() < 0.5:
+                out.append(["else", ""])
+                out += cond_program(rng, rng.choice([0, 0, 1, 2, 4]), depth + 1)
+            out.append(["endif", ""])
+        elif r < 0.55:
+            out.append(["tok", "t"])
+        elif r < 0.70:
+            out.append(["def", rng.choice(["A", "B", "C"])])
+        elif r < 0.80:
+            out.append(["undef", rng.choice(["A", "B", "C"])])
+        elif r < 0.83:
+            out.append(["undefall", ""])
+        elif r < 0.95:
+            out.append(["use", rng.choice(["A", "B", "C"])])
+        else:
+            out.append(["inc", "missing.svh"])
+    return out
+
+
 def nontrivial(prog):
     ks = [k for k, _ in prog]
     return any(k in ("ifdef", "ifndef") for k in ks) and any(k in ("tok", "use", "def", "undef") for k in ks)
@@ -63,12 +94,12 @@ def run(tier, seed):
     rng = random.Random(seed)
     quick = tier == "quick"
     # 1. model checking of the design
-    mcs = ["quick", "quick_hostile"] if quick else ["thorough", "thorough_deep", "thorough_hostile"]
+    mcs = ["quick", "quick_hostile", "quick_skel"] if quick else ["thorough", "thorough_deep", "thorough_hostile", "thorough_skel"]
     for c in mcs:
         r = vlib.tlc_model_check("MC_PreprocCond.tla", "MC_PreprocCond_%s.cfg" % c, workers=8, extra=["-coverage", "1"])
         v.add_mc("MC_PreprocCond_" + c, r, "MachineEqualsRef, StepBound, DeadInert")
     # 2. GEN
-    gens = ["gen_wide4", "gen_hostile4", "gen_deep5"] if quick else ["gen_wide5", "gen_hostile5", "gen_deep6"]
+    gens = ["gen_wide4", "gen_hostile4", "gen_deep5", "gen_skel7"] if quick else ["gen_wide5", "gen_hostile5", "gen_deep6", "gen_skel9"]
     progs = []
     for g in gens:
         ps, r = vlib.tlc_export("MC_PreprocCond.tla", "MC_PreprocCond_%s.cfg" % g, workers=4)
@@ -86,7 +117,7 @@ def run(tier, seed):
         if quick:
             tabs = [tables[rng.randrange(len(tables))]]
         else:
-            tabs = tables[:3] if g != "gen_wide5" else [tables[rng.randrange(5)], tables[rng.randrange(5)]]
+            tabs = tables[:3] if g not in ("gen_wide5", "gen_skel9") else [tables[rng.randrange(5)], tables[rng.randrange(5)]]
         for t in tabs:
             nid += 1
             dense = rng.random() < 0.5
@@ -95,6 +126,14 @@ def run(tier, seed):
                     "fn": "preprocess" if nid % 2 else "preprocess_str"}
             cases.append(case)
             by_id[str(nid)] = {"prog": p, "table": t, "universe": g}
+    # seeded larger programs: long chains, nesting up to 5, empty branches, defines/undefs/usages in every position
+    for i in range(2500 if quick else 40000):
+        nid += 1
+        prog = cond_program(rng, rng.randint(4, 40), 0)
+        t = tables[rng.randrange(len(tables))]
+        items = complete(prog, rng, rng.random() < 0.5)
+        cases.append({"id": nid, "files": {"top.sv": items}, "top": "top.sv", "predef": table(t), "fn": "preprocess"})
+        by_id[str(nid)] = {"prog": prog, "table": t, "universe": "seeded"}
     vlib.log("C04: %d cases" % len(cases))
     records, hcases, results = ppcheck.build_run_records(cases, "c04", check_origins=False)
     for c, h in zip(cases, hcases):
